@@ -160,7 +160,8 @@ pub fn active() -> bool {
 // S4: BLS points as opaque tokens (blst is C/assembly behind FFI).
 // A key is its 48 bytes stashed in the blst_p1 storage; byte 0 decides the two
 // predicates of the FFI contract: 0xEE.. = not a valid point, 0xC0.. = the point at
-// infinity (valid), anything else = a valid non-infinity point.
+// infinity (valid), K_OFF_SUBGROUP = on the curve but outside G1 (rejected by the checked
+// decoder only), anything else = a valid non-infinity point.
 pub const PK_SIZE: usize = std::mem::size_of::<chia_bls::PublicKey>();
 
 pub fn pk_token(bytes: &[u8; 48]) -> chia_bls::PublicKey {
@@ -184,8 +185,29 @@ pub fn pk_bytes(pk: &chia_bls::PublicKey) -> [u8; 48] {
     out
 }
 
+/// A real point of E(Fp) outside the prime-order subgroup (found by search, checked natively:
+/// `PublicKey::from_bytes` rejects it, `from_bytes_unchecked` accepts it, it is not infinity).
+/// The model's "on the curve but not in G1" class has exactly this one member, so that a
+/// counterexample built from it replays natively against the real blst.
+pub const K_OFF_SUBGROUP: [u8; 48] = {
+    let mut k = [0x11u8; 48];
+    k[0] = 0x80;
+    k[47] = 0xff;
+    k
+};
+
+pub fn pk_is_off_subgroup(bytes: &[u8; 48]) -> bool {
+    let mut eq = true;
+    let mut i = 0;
+    while i < 48 {
+        eq &= bytes[i] == K_OFF_SUBGROUP[i];
+        i += 1;
+    }
+    eq
+}
+
 pub fn pk_from_bytes_stub(bytes: &[u8; 48]) -> chia_bls::Result<chia_bls::PublicKey> {
-    if bytes[0] == 0xEE {
+    if bytes[0] == 0xEE || pk_is_off_subgroup(bytes) {
         Err(chia_bls::Error::G1NotCanonical)
     } else {
         Ok(pk_token(bytes))
@@ -270,7 +292,13 @@ pub fn cache_aggregate_verify_stub<Pk: std::borrow::Borrow<chia_bls::PublicKey>,
 
 /// S4 (trusted decoding): same token model, unchecked variant accepts a superset
 pub fn pk_from_bytes_unchecked_stub(bytes: &[u8; 48]) -> chia_bls::Result<chia_bls::PublicKey> {
-    Ok(pk_token(bytes))
+    // 0xEE.. = not the encoding of a curve point (rejected by both decoders); the subgroup
+    // check is what the unchecked decoder skips
+    if bytes[0] == 0xEE {
+        Err(chia_bls::Error::G1NotCanonical)
+    } else {
+        Ok(pk_token(bytes))
+    }
 }
 
 /// S6: chia_pos2 proof validation is out of reach; its contract is "None when the proof
@@ -311,4 +339,26 @@ pub fn sha_finalize_precomputed(_s: Sha256) -> [u8; 32] {
 /// outside CBMC's field-sensitive range (every read symbolic, map shape path-dependent).
 pub fn with_capacity_none<T>(_n: usize) -> Vec<T> {
     Vec::new()
+}
+
+/// S3 for the fast-forward harnesses: like `sha_finalize_precomputed`, and in addition the
+/// stand-in atom for the singleton top layer program hashes to SINGLETON_TOP_LAYER_V1_1_HASH
+/// (natively the real program does).
+pub fn sha_finalize_ff(s: Sha256) -> [u8; 32] {
+    unsafe {
+        let m = crate::c19f::MOD_STAND_IN;
+        if G.rec_len == 1 + m.len() && G.rec[0] == 1 {
+            let mut eq = true;
+            let mut i = 0;
+            while i < m.len() {
+                eq &= G.rec[1 + i] == m[i];
+                i += 1;
+            }
+            if eq {
+                G.rec_finalized += 1;
+                return chia_puzzles::SINGLETON_TOP_LAYER_V1_1_HASH;
+            }
+        }
+    }
+    sha_finalize_precomputed(s)
 }
